@@ -6,7 +6,7 @@
    parameters of the model; `shipped_arefl = false`, `tmerge = tmerge_gen .. true` are what the code does now.
 
    The closure (tc: right-linear, proved the least transitive relation containing R: tc_least, tc_trans) is defined in
-   Byods/TrRelProofs.v.  Byods/Provider.v (C10's file) quantifies its laws over ALL operation sequences (an unconditional
+   Byods/TrRelProofs.v and proved equal to Closure.tc_rel / the executable Closure.tc of Byods/Closure.v (tc_iff_shared).  Byods/Provider.v (C10's file) quantifies its laws over ALL operation sequences (an unconditional
    insert_if_not_present, a stratum boundary at any point); the trrel code meets the laws on histories of the
    head-update protocol (contains_key(total), contains_key(delta) before every insertion; a boundary only after a
    merge that found `new` empty) — off-protocol insertions reach insert_unique_unchecked with duplicates.  The laws
@@ -18,6 +18,7 @@ From Coq Require Import List ZArith Bool.
 From AV Require Import Byods.TrRelModel.
 From AV Require Import Byods.TrRelProofs.
 From AV Require Import Byods.TrRelTernary.
+From AV Require Byods.Closure.
 Import ListNotations.
 Open Scope Z_scope.
 
@@ -30,6 +31,12 @@ Theorem c11_closure : forall ops st ins,
   brun shipped_arefl bempty [] ops = Some (st, ins) -> b_new st = [] ->
   forall x y, In (x, y) (reads st) <-> tc ins x y.
 Proof. exact trrel_closure. Qed.
+
+(* the same against the shared executable closure of Byods/Closure.v (the specification used by C10 and C12) *)
+Theorem c11_closure_shared : forall ops st ins,
+  brun shipped_arefl bempty [] ops = Some (st, ins) -> b_new st = [] ->
+  forall x y, In (x, y) (reads st) <-> In (x, y) (Closure.tc ins).
+Proof. exact trrel_closure_shared. Qed.
 
 (* ternary form r(K,T,T), forward map: the same per key *)
 Theorem c11_ternary_closure : forall h ops st ins,
@@ -180,7 +187,7 @@ Example c11_example_ternary :
   end = ([(0, 2, 3); (0, 1, 3)], Some [(0, 1, 3); (0, 2, 3)], Some [(0, 2, 3); (0, 1, 3)]).
 Proof. vm_compute. reflexivity. Qed.
 
-Print Assumptions c11_closure. Print Assumptions c11_ternary_closure. Print Assumptions c11_ternary_rev_views_exact.
+Print Assumptions c11_closure. Print Assumptions c11_closure_shared. Print Assumptions c11_ternary_closure. Print Assumptions c11_ternary_rev_views_exact.
 Print Assumptions trrel_merge_closure. Print Assumptions c11_merge_exact. Print Assumptions c11_merge_defined.
 Print Assumptions c11_histories_never_stuck. Print Assumptions c11_P2_reads_are_cl. Print Assumptions c11_P1_insert.
 Print Assumptions c11_P3_total_is_previous_reads. Print Assumptions c11_P4_views. Print Assumptions c11_P5_contains.
